@@ -41,9 +41,19 @@ def r1_numbering(ctx, rule="R1"):
     call = calls[0]
     num = C.arg_of(call, 1, "line_number")
     loop = C.enclosing_loop(call)
+    comp = None
     if not isinstance(loop, ast.For):
-        ctx.bad(rule, "line loop", f.where(call), "parse_line is not called from a for loop over the physical lines", f.qname, "line loop")
-        return
+        # the same loop written as a comprehension: [self.parse_line(l, n) for n, l in enumerate(...) if l.strip()]
+        p = C.parent(call)
+        while p is not None and not isinstance(p, (ast.ListComp, ast.GeneratorExp, ast.FunctionDef)):
+            p = C.parent(p)
+        if isinstance(p, (ast.ListComp, ast.GeneratorExp)) and len(p.generators) == 1 and p.elt is call:
+            comp = p
+            loop = ast.For(target=p.generators[0].target, iter=p.generators[0].iter, body=[], orelse=[])
+            ast.copy_location(loop, p)
+        else:
+            ctx.unknown(rule, "line loop", f.where(call), "parse_line is called neither from a for loop nor from a comprehension over the lines")
+            return
     # ---- iteration shape: which variable is the line, what is its 0-based index ------------------------
     it, idx, line = loop.iter, None, None      # idx: affine map of the 0-based index
     if C.is_call_to(it, "enumerate") and isinstance(loop.target, ast.Tuple) and len(loop.target.elts) == 2:
@@ -123,7 +133,9 @@ def r1_numbering(ctx, rule="R1"):
               f.where(call), "the line number handed to parse_line is `%s`: it must be the 1-based position of the physical line "
               "(+ start_line); derived %s, required %s" % (U(num), norm(numaff), norm(want)), f.qname, "line number expression")
     # ---- only blank lines are skipped, inside the numbered loop -----------------------------------------
-    facts = facts_at(call, stop=loop)
+    facts = facts_at(call, stop=loop if comp is None else None)
+    if comp is not None:
+        facts = [fa for fa in facts if any(C.in_subtree(fa[0], c) or fa[0] is c for c in comp.generators[0].ifs)]
     nonblank = [fa for fa in facts if _blank_fact(fa[0], fa[1], line)]
     ctx.check(bool(nonblank), rule, "blank lines are skipped inside the numbered loop", f.where(loop),
               "blank lines are not skipped by a blank test on `%s.strip()` inside the numbered loop (facts at the call: %s)"
@@ -132,8 +144,15 @@ def r1_numbering(ctx, rule="R1"):
     ctx.check(not other, rule, "no non-blank line is skipped", f.where(call),
               "parse_line is only reached under %s: non-blank lines can be dropped" % [("" if pol else "not ") + U(e) for e, pol in other],
               f.qname, "no other skip")
-    app = pm.find("M_r.append(self.parse_line(M__, M__))", loop)
     rets = [r for r in ast.walk(f.node) if isinstance(r, ast.Return)]
+    if comp is not None:
+        res = comp if isinstance(comp, ast.ListComp) else C.parent(comp)
+        held = [a for a in ast.walk(f.node) if isinstance(a, ast.Assign) and a.value is res and isinstance(a.targets[0], ast.Name)]
+        ctx.check(len(rets) == 1 and (rets[0].value is res or (held and U(rets[0].value) == held[0].targets[0].id)), rule,
+                  "exactly one parsed line per non-blank line, in file order", f.where(),
+                  "the comprehension over the lines is not what parse_file returns", f.qname, "one result per line")
+        return
+    app = pm.find("M_r.append(self.parse_line(M__, M__))", loop)
     ctx.check(bool(app) and len(rets) == 1 and U(rets[0].value) == U(app[0][1]["M_r"]), rule,
               "exactly one parsed line per non-blank line, in file order", f.where(),
               "parsed lines are not appended one per non-blank line and returned", f.qname, "one result per line")
